@@ -25,6 +25,32 @@ CHECKS = {
          "hash function and string-list encoding of the repository are trusted for recomputing key/row hashes",
          "TLA+ spec Objects.tla; TLC trace validation (TraceTable.tla) of projections of real stored tables",
          "DESIGN.md 5/C03"),
+ "C04": ("diff", "model_checking",
+         "Diff.tla transcribes the block-window search (findOverlappingBlocks with the prevEnd carry-over, both passes) and TLC checks "
+         "Events = Expected (set-theoretic added/removed/modified), Diff(t,t) = {} and the swap law for every pair of tables over 4 (quick) / 6 "
+         "(thorough: 531,441 pairs) abstract keys; every pair is built for real by cluster scaling (abstract key -> 85 or 255 real keys, so real "
+         "255-row block boundaries are isomorphic to the model's) and run through the real diff.DiffTables with events, offsets and crash "
+         "behaviour compared; seeded real-scale unaligned pairs (composite keys, no-PK tables, empty sides) are validated by TLC (TraceDiff.tla).",
+         "tables are built through the real ingest with unique keys; `wrgl diff` CLI rendering not exercised",
+         "TLA+ spec Diff.tla; TLC-enumerated table pairs replayed into pkg/diff; TLC trace validation (TraceDiff.tla)",
+         "DESIGN.md 5/C04"),
+ "C11": ("graph", "model_checking",
+         "Graph.tla defines ancestry, walks and the merge-base contract (AllowedBases) and transcribes the code's lock-step algorithm "
+         "(SeekAsCoded); TLC enumerates all commit DAGs of 4 (quick) / 5 (thorough) commits x all clock assignments from {1,2,3} and exports "
+         "ancestor sets and allowed bases; the harness builds real commits and checks ref.IsAncestorOf, CommitsQueue walks and "
+         "ref.SeekCommonAncestor on every ordered tuple of 2..4 commits; traces of larger seeded random DAGs are validated by TLC (TraceGraph.tla).",
+         "commit timestamps have one-second resolution; n=5 uses parent sets (not both parent orders)",
+         "TLA+ spec Graph.tla; TLC-enumerated DAGs replayed into pkg/ref; TLC trace validation (TraceGraph.tla) with named deviations for known findings",
+         "DESIGN.md 5/C11"),
+ "C12": ("prune", "model_checking",
+         "Prune.tla states reachability-based Must/MustNot sets and models mark-and-sweep as the code structures it; TLC enumerates all "
+         "repositories of <=3 (quick) / <=4 (thorough, 595,056) commits over three block-sharing tables x ref subsets of every kind x absent "
+         "(shallow) tables; each is built for real (ingest-built tables, objmock or badger+sqlite) and run through prune.Prune / wrgl prune / "
+         "wrgl gc twice, key sets compared with must/mustNot and every surviving commit re-read in full; traces of larger seeded "
+         "repositories are validated by TLC (TracePrune.tla).",
+         "commit objects named by refs/parents exist; tables are complete or absent",
+         "TLA+ spec Prune.tla; TLC-enumerated repositories replayed into pkg/prune and the CLI; TLC trace validation (TracePrune.tla)",
+         "DESIGN.md 5/C12"),
  "C15": ("refs", "model_checking",
          "TLC explores the ref-store specification (Refs.tla) exhaustively over an alphabet of names with '_', '%', case variants "
          "and nested prefixes; every transition of the model's state graph is replayed on the real SQL ref store with return value "
